@@ -74,7 +74,7 @@ theorem doUncompressed_grew : ∀ (bits : List Bool) (st : St), st.curline.lengt
   | cons c cs ih =>
     intro st h
     simp only [doUncompressed]
-    generalize hst1 : ({ st with curline := _, curpos := st.curpos + 1 } : St) = st1
+    generalize hst1 : ({ st with curline := _, curpos := CcittCode.uncStep st.curpos } : St) = st1
     have hw1 : st1.width = st.width := by rw [← hst1]
     have hl1 : st1.curline.length = st1.width := by rw [← hst1]; simp [fill_length, h]
     have hb1 : st1.buf = st.buf := by rw [← hst1]
@@ -188,9 +188,10 @@ theorem accept_grew (st : St) (v : Option Sym) (h : st.curline.length = st.width
         simp only [leafOk, Bool.and_eq_true, decide_eq_true_eq] at hs
         simp only [parseUncompressed]
         split
-        · split
-          · trivial
-          · rename_i c rest hb
+        · cases hb : u.bits with
+          | nil => simp only [uncSplit_nil]; trivial
+          | cons c rest =>
+            simp only [uncSplit_cons]
             have hlen : rest.length ≤ 6 := by have := hs.2; rw [hb] at this; simp at this; omega
             generalize hst1 : ({ st with acc := Acc.mode, color := c } : St) = st1
             have hw1 : st1.width = st.width := by rw [← hst1]
